@@ -18,6 +18,7 @@ Observed: {"steps": [{"mat": [V], "mat_dtype": str} | {"values": [V], "values_dt
           plus "raise"/"stage"/"at" if a step raised.  These cases are judged by the oracle only (not sent to Coq)."""
 import itertools
 import math
+import zlib
 
 from vlib import coqlit as L
 
@@ -42,6 +43,9 @@ LEVEL_NOTE = ("Trusted: Coq kernel + vm_compute; the hand-written models of the 
               "'equal to the default' is Python/NumPy ==, so -0.0 stored under default 0.0 comes back as 0.0 and 1.0 under default 1 as the data's own kind. "
               "Object identity (caching, aliasing of returned arrays, in-place updates of the stored values) does not exist in the pure model: it is covered by "
               "the multi-step stream, which is checked by the property oracle on the implementation only, not by Coq. "
+              "Scale: the theorems hold for every length, and the correspondence evaluates the model on dictionaries of up to ~700 entries, runs / lengths / sparse indices up to 2^16+1; "
+              "dictionaries of >= 2^15 entries, sparse columns with >= 2^15 stored values and sequences of >= 2^15 runs are judged by the property oracle only "
+              "(the list-based model needs n*k steps, the literal would be megabytes); sizes at 2^31 / 2^32 are not exercised at all. "
               "No axioms (Print Assumptions: closed).")
 DESIGN_REF = "DESIGN.md section 8, C09"
 COQ_IMPORTS = "From Orso Require Import Model.C09."
@@ -49,6 +53,13 @@ COQ_CHECKS = {"rle": "c09_check_rle", "dict": "c09_check_dict", "sparse": "c09_c
               "const": "c09_check_const", "func": "c09_check_func"}
 COQ_SHOW = {"rle": "c09_show_rle", "dict": "c09_show_dict", "sparse": "c09_show_sparse",
             "const": "c09_show_const", "func": "c09_show_func"}
+# long cases (the boundary sweep) go to four extra shards per column, same check functions, so that they are
+# type-checked in parallel instead of all landing in one cases file
+_SPREAD = 4
+for _k in ("rle", "dict", "sparse"):
+    for _i in range(_SPREAD):
+        COQ_CHECKS["%s_s%d" % (_k, _i)] = COQ_CHECKS[_k]
+        COQ_SHOW["%s_s%d" % (_k, _i)] = COQ_SHOW[_k]
 RULE = ("real RLEColumn / DictionaryColumn / SparseColumn / ConstantColumn / FunctionColumn objects built from Python lists; "
         "exhaustive: every sequence of length <= 5 (quick: <= 4) over {a, b, default} for integer, text (mixed width), float, boolean, "
         "null-default, other-kind-default and other-width-default alphabets; random: sequences of ints, floats (NaN, infinities, signed zero, "
@@ -56,6 +67,8 @@ RULE = ("real RLEColumn / DictionaryColumn / SparseColumn / ConstantColumn / Fun
         "pool value / other width / other numeric kind / out-of-range; element-wise functions *2, +1, upper, +'xy', not on the stored values; "
         "multi-step cases run a script on ONE column object (materialize / function on the stored values in place or by rebinding / overwrite "
         "a returned array / change length / materialize again) and are judged by the oracle only; "
+        "boundary sweep (fixed permutations + seeded sizes): number of dictionary entries, run length, number of runs, sparse index / total length / "
+        "number of stored values, constant and function length just below, at and above 2^7, 2^8, 2^15, 2^16; "
         "a case is non-trivial when it expanded without raising and holds >= 2 elements (constant/function: length >= 1); distinct by canonical JSON")
 TRUSTED = [
     "C09 model (coq/Model/C09.v): codecs over an abstract value type; Python values as None/bool/Z/exact binary64 (m*2^e)/code points; "
@@ -79,6 +92,13 @@ NAN, INF = float("nan"), float("inf")
 # value coding
 # ----------------------------------------------------------------------------------------------
 def enc(x):
+    t = type(x)  # fast paths for what .tolist() returns (same answers as the general code below)
+    if t is int:
+        return ["i", x]
+    if t is str:
+        return ["s", x]
+    if t is float:
+        return ["f", x.hex()]
     try:
         import numpy
         if isinstance(x, numpy.generic):
@@ -154,17 +174,70 @@ _FN = {None: "(None : option fn)", "mul2": "(Some Mul2)", "add1": "(Some Add1)",
 _BIND = {"first": "BFirst", "last": "BLast", "null": "BConstNull"}
 
 
+class _TooBig(Exception):
+    """the Coq term of one case would exceed _TERM_LIMIT characters"""
+
+
+_LONG = 64        # lists up to this length are printed as plain literals (the round-1 form, unchanged)
+_RUN = 8          # in longer lists a run of >= _RUN identical items is printed as `repeat item count`
+
+
+def _coq_nat(i):
+    """a nat; beyond small values as N.to_nat of a binary numeral (unary literals cost a node per unit, and > 5000 are refused)"""
+    i = int(i)
+    if i < 0:
+        raise ValueError("negative nat")
+    return L.nat(i) if i <= 16 else "(N.to_nat %s)" % L.N(i)
+
+
+def _compact(xs, render, ty, key=lambda v: tuple(v) if isinstance(v, list) else v):
+    """Coq term of type `list ty` denoting exactly the list xs: literal segments joined by ++, runs of identical
+    items as `repeat item n` (evaluated by vm_compute like everything else in the case)."""
+    parts, lit, size = [], [], 0
+    for _, grp in itertools.groupby(xs, key=key):
+        g = list(grp)
+        if len(g) >= _RUN:
+            if lit:
+                parts.append(L.lst(lit))
+                lit = []
+            parts.append("(repeat %s %s)" % (render(g[0]), _coq_nat(len(g))))
+            size += len(parts[-1])
+        else:
+            for v in g:
+                lit.append(render(v))
+                size += len(lit[-1])
+        if size > _TERM_LIMIT:
+            raise _TooBig()
+    if lit or not parts:
+        parts.append(L.lst(lit))
+    return "((%s)%%list : list %s)" % (" ++ ".join(parts), ty)
+
+
+def coq_vals(xs):
+    if len(xs) <= _LONG:
+        return "(%s : list val)" % L.lst(coq_val(v) for v in xs)
+    return _compact(xs, coq_val, "val")
+
+
+def coq_nats(xs):
+    if len(xs) <= _LONG and all(i <= 5000 for i in xs):
+        return "(%s : list nat)" % L.lst(L.nat(i) for i in xs)
+    return _compact(xs, _coq_nat, "nat")
+
+
 def coq_obs(obs, with_aux=True, single=False):
     if "raise" in obs:
         return "(Raise %s : result obs)" % _EXN.get(obs["raise"], "OtherError")
-    vals = lambda xs: "(%s : list val)" % L.lst(coq_val(v) for v in xs)
+    if with_aux and any(i < 0 for i in obs["aux"]):
+        return "(Raise OtherError : result obs)"  # a negative code / index / length: nothing the model ever answers
+    vals = coq_vals
     if single:
         vv = L.lst([vals(obs["mat"])])
         dd = L.lst([coq_dtype(obs["mat_dtype"])])
     else:
         vv = L.lst([vals(obs["values"]), vals(obs["mat"])])
         dd = L.lst([coq_dtype(obs["values_dtype"]), coq_dtype(obs["mat_dtype"])])
-    nn = L.lst(["(%s : list nat)" % L.lst(L.nat(i) for i in obs["aux"])]) if with_aux else "[]"
+    nn = L.lst([coq_nats(obs["aux"])]) if with_aux else "[]"
     return "(Ok (mkobs (%s : list (list val)) (%s : list (list nat)) (%s : list dtype)))" % (vv, nn, dd)
 
 
@@ -507,14 +580,25 @@ def oracle(case, obs):
             if _py_eq(stored[i], stored[i - 1]):
                 return f"rle: adjacent runs {i-1} and {i} hold the same value {stored[i]!r}"
     elif kind == "dict":
-        for i in range(len(stored)):
-            for j in range(i):
-                if _py_eq(stored[i], stored[j]) or (_isnan(stored[i]) and _isnan(stored[j])):
-                    return f"dictionary: entries {j} and {i} are both {stored[i]!r}"
+        if len(stored) <= 64:
+            for i in range(len(stored)):
+                for j in range(i):
+                    if _py_eq(stored[i], stored[j]) or (_isnan(stored[i]) and _isnan(stored[j])):
+                        return f"dictionary: entries {j} and {i} are both {stored[i]!r}"
+        else:
+            # the same pairwise test, by hashing (x == y implies hash(x) == hash(y) for None / bool / int / float / str)
+            seen = {}
+            for i, x in enumerate(stored):
+                key = ("nan",) if _isnan(x) else ("null",) if x is None else ("s", x) if isinstance(x, str) else ("v", x)
+                if key in seen:
+                    return f"dictionary: entries {seen[key]} and {i} are both {x!r}"
+                seen[key] = i
         if len(aux) != n:
             return f"dictionary: {len(aux)} codes for {n} elements"
-        if any(c < 0 or c >= len(stored) for c in aux):
-            return f"dictionary: codes {aux} must index the {len(stored)} entries"
+        bad = [(i, c) for i, c in enumerate(aux) if c < 0 or c >= len(stored)]
+        if bad:
+            return (f"dictionary: codes must index the {len(stored)} entries; code {bad[0][1]} at position {bad[0][0]} does not "
+                    f"({len(bad)} such codes)" + (f", codes {aux}" if len(aux) <= 40 else ""))
     elif kind == "sparse":
         d = dec(case["default"])
         if len(stored) != len(aux):
@@ -630,7 +714,41 @@ KNOWN_WITNESSES = {
 # ----------------------------------------------------------------------------------------------
 # Coq terms
 # ----------------------------------------------------------------------------------------------
+_TERM_LIMIT = 400_000       # characters of one Coq case term (type-checking a literal costs ~15 us per node)
+_MODEL_STEPS = 3_000_000    # estimated steps of the (list-based, quadratic) model on one case
+
+
+def _model_too_slow(case, obs):
+    """The model is executable but list-based: dict_encode is insertion sort + linear index_of (n * k steps for n elements
+    with k distinct values), scatter walks to each stored index (sum of the indices).  Cases beyond the step budget are not
+    evaluated in Coq (the theorems cover every length; only the evaluation of this one case is skipped)."""
+    vs = case.get("values")
+    if vs is None:
+        return False
+    n = len(vs)
+    if case["col"] == "dict":
+        return n * len({tuple(v) for v in vs}) > _MODEL_STEPS
+    if case["col"] == "sparse":
+        d = tuple(case["default"])
+        return sum(i for i, v in enumerate(vs) if tuple(v) != d) > _MODEL_STEPS
+    return False
+
+
+_last_term = [None, None, None]
+
+
 def to_coq(case, obs):
+    if _last_term[0] is case and _last_term[1] is obs:  # classify() asks too
+        return _last_term[2]
+    try:
+        t = _to_coq(case, obs)
+    except _TooBig:
+        t = None  # judged by the oracle only (classify() says so in the evidence)
+    _last_term[:] = [case, obs, t]
+    return t
+
+
+def _to_coq(case, obs):
     kind = case["col"]
     if "script" in case:
         return None  # multi-step cases: judged by the oracle only (the pure model has no object identity to get stale)
@@ -639,14 +757,23 @@ def to_coq(case, obs):
     if kind == "func":
         term = "(%s, (%s : list val), %s, %s)" % (_BIND[case["binding"]], L.lst(coq_val(v) for v in case["cfg"]),
                                                     L.Z(case["length"]), coq_obs(obs, with_aux=False, single=True))
-        return ("func", term)
+        return ("func", term) if len(term) <= _TERM_LIMIT else None
     fn = _FN[case.get("fn")]
     if kind == "const":
-        return ("const", "(%s, %s, %s, %s)" % (coq_val(case["value"]), L.Z(case["length"]), fn, coq_obs(obs, with_aux=False)))
-    vals = "(%s : list val)" % L.lst(coq_val(v) for v in case["values"])
+        term = "(%s, %s, %s, %s)" % (coq_val(case["value"]), L.Z(case["length"]), fn, coq_obs(obs, with_aux=False))
+        return ("const", term) if len(term) <= _TERM_LIMIT else None
+    if _model_too_slow(case, obs):
+        return None
+    vals = coq_vals(case["values"])
     if kind == "sparse":
-        return ("sparse", "(%s, %s, %s, %s)" % (vals, coq_val(case["default"]), fn, coq_obs(obs)))
-    return (kind, "(%s, %s, %s)" % (vals, fn, coq_obs(obs)))
+        term = "(%s, %s, %s, %s)" % (vals, coq_val(case["default"]), fn, coq_obs(obs))
+    else:
+        term = "(%s, %s, %s)" % (vals, fn, coq_obs(obs))
+    if len(term) > _TERM_LIMIT:
+        return None  # judged by the oracle only (classify() says so in the evidence)
+    if len(term) > 4000:
+        return ("%s_s%d" % (kind, zlib.crc32(term.encode()) % _SPREAD), term)
+    return (kind, term)
 
 
 def nontrivial_key(case, obs):
@@ -664,6 +791,32 @@ def _vkind(v):
     return {"n": "null", "b": "bool", "i": "int", "f": "float", "s": "text", "?": "other"}[v[0]]
 
 
+def _band(x):
+    return ">=2^16" if x >= 65536 else ">=2^15" if x >= 32768 else ">=2^8" if x >= 256 else ">=2^7" if x >= 128 else None
+
+
+def _scale_labels(case, obs):
+    """which of the integers an encoding keeps reached the 8- / 16-bit capacities (read off the observation)"""
+    kind = case["col"]
+    if kind in ("const", "func"):
+        q = {"length": case["length"]}
+    elif "script" in case:
+        q = {"dict-entries" if kind == "dict" else "elements": len({tuple(v) for v in case["values"]}) if kind == "dict" else len(case["values"])}
+    elif "raise" in obs:
+        q = {}
+    elif kind == "dict":
+        q = {"dict-entries": len(obs["values"])}
+    elif kind == "rle":
+        q = {"rle-run-length": max(obs["aux"], default=0), "rle-runs": len(obs["aux"])}
+    else:
+        q = {"sparse-index": max(obs["aux"], default=0), "sparse-stored": len(obs["aux"]), "sparse-length": len(case["values"])}
+    for name, x in q.items():
+        if _band(x):
+            yield "scale:%s%s" % (name, _band(x))
+    if "script" not in case and obs.get("stage") != "fn" and to_coq(case, obs) is None:
+        yield "scale:oracle-only(not evaluated in Coq: model steps or term size over budget)"
+
+
 def classify(case, obs):
     kind = case["col"]
     yield "col:" + kind
@@ -676,9 +829,15 @@ def classify(case, obs):
         yield "raised:" + obs["raise"] + "@" + obs["stage"]
     if kind in ("const", "func"):
         yield "length=%s" % ("neg" if case["length"] < 0 else min(case["length"], 4))
+        if case["length"] >= 100:
+            for lab in _scale_labels(case, obs):
+                yield lab
         return
     vs = case["values"]
     kinds = sorted({_vkind(v) for v in vs})
+    if len(vs) >= 100:
+        for lab in _scale_labels(case, obs):
+            yield lab
     yield "data:" + ("+".join(kinds) if kinds else "empty")
     yield "len=%d" % min(len(vs), 6) + ("+" if len(vs) > 6 else "")
     if case.get("fn"):
@@ -777,6 +936,167 @@ def _scripts(f, g, g_inplace):
     ]
 
 
+# ---- scale: sizes around the capacities of 8- and 16-bit integers -----------------------------------
+# Every encoding keeps integers next to the values: dictionary codes (< number of distinct values), sparse indices
+# (< length) and the total length, run lengths and the number of runs, constant / function lengths.  The small-scope
+# sequences keep all of them below 6; these cases put each of them just below, at and just above 2^7, 2^8, 2^15, 2^16
+# (the capacities of signed / unsigned 8- and 16-bit integers).  2^31 / 2^32 are out of reach of a per-run check.
+_B8 = (127, 128, 129, 255, 256, 257)
+_B16 = (32767, 32768, 32769, 65535, 65536, 65537)
+
+
+def _pool(kind, k, rng):
+    """k distinct values of one kind (pairwise != and told apart by numpy.unique)"""
+    if kind == "int":
+        start, step = rng.choice([0, -50, 1000, -(2 ** 40), 2 ** 53]), rng.choice([1, 3, 7])
+        return [start + step * i for i in range(k)]
+    if kind == "float":
+        start = rng.choice([0.5, -100.25, 1048576.0])
+        return [start + 0.5 * i for i in range(k)]
+    if kind == "text":
+        pre = rng.choice(["", "v", "Kx"])
+        return [pre + str(i) for i in range(k)]  # widths 1..5: mixed-width text, sorted by code point not by number
+    raise KeyError(kind)
+
+
+_SCALE_FN = {"int": ["mul2", "add1"], "float": ["mul2"], "text": ["upper", "catxy"]}
+
+
+def _dict_scale(kind, k, rng, fn=None, script=None):
+    """a dictionary column over exactly k distinct values: every code 0..k-1 occurs, some repeat, order scrambled"""
+    pool = _pool(kind, k, rng)
+    seq = pool + [rng.choice(pool) for _ in range(min(k // 4 + 3, 400))]
+    rng.shuffle(seq)
+    c = {"col": "dict", "values": [enc(v) for v in seq], "fn": fn}
+    if script:
+        c["script"] = script
+    return c
+
+
+_RUN_ALPHABETS = [(1, 2), ("x", "yyy"), (1.5, 2.5), (True, False), (None, 7), ("", "ab")]
+
+
+def _rle_long_run(r, ab, rng, fn=None):
+    """runs of length r-1 / r / r+1 and short ones"""
+    a, b = ab
+    seq = [a] * r + [b] * rng.choice([1, 2, 3]) + ([a] * (r + 1) + [b] * max(r - 1, 1) if r < 1000 else []) + [a]
+    return {"col": "rle", "values": [enc(v) for v in seq], "fn": fn}
+
+
+def _rle_many_runs(m, ab, rng, fn=None):
+    """exactly m runs, most of length 1"""
+    a, b = ab
+    seq = []
+    for i in range(m):
+        seq.extend([a if i % 2 == 0 else b] * (1 if rng.random() < 0.9 else rng.choice([2, 3])))
+    return {"col": "rle", "values": [enc(v) for v in seq], "fn": fn}
+
+
+def _sparse_far(b, abd, rng, fn=None):
+    """length b+2, all default except the ends and the positions around b (indices b-2 .. b+1)"""
+    x, y, d = abd
+    n = b + 2
+    seq = [d] * n
+    for j, i in enumerate(sorted({0, b - 2, b - 1, b, b + 1, rng.randrange(n)})):
+        seq[i] = (x, y)[j % 2]
+    return _sparse(seq, d, fn)
+
+
+def _sparse_dense(n, kind, d, rng, fn=None):
+    """n stored values (nothing equals the default), so indices 0..n-1 and n values are kept"""
+    pool = [v for v in _pool(kind, n + 1, rng) if v != d][:n]
+    rng.shuffle(pool)
+    return _sparse(pool, d, fn)
+
+
+def _scale_fixed(tier):
+    import random
+    rs = lambda *k: random.Random(repr(k))  # fixed permutations: this part does not depend on VERIF_SEED
+    # dictionary: number of distinct values around 2^7, 2^8 (evaluated in Coq) ...
+    ks = list(_B8) if tier == "quick" else sorted(set(range(120, 137)) | set(range(248, 265)) | {511, 512, 513})
+    for k in ks:
+        for kind in ("int", "text", "float"):
+            if tier != "quick" or kind != "float" or k in (129, 257):  # quick: float only just above the two boundaries
+                yield _dict_scale(kind, k, rs("d", k, kind))
+    for k in (129, 257):
+        yield _dict_scale("int", k, rs("df", k), fn="mul2")
+        yield _dict_scale("text", k, rs("dt", k), fn="catxy")
+        yield _dict_scale("float", k, rs("ds", k), script=["mat", ["fn", "mul2", "inplace"], "mat", "scribble", "mat"])
+        yield _dict_scale("int", k, rs("ds2", k), script=[["fn", "add1", "rebind"], "mat", "mat"])
+    # ... and around 2^15, 2^16 (oracle only: the list-based model needs n * k steps)
+    for k in _B16:
+        yield _dict_scale("int", k, rs("D", k))
+    yield _dict_scale("text", 32769, rs("Dt"))
+    yield _dict_scale("float", 65537, rs("Df"), fn="mul2")
+    # run-length: one run of that length; that many runs
+    for i, r in enumerate(_B8 + _B16):
+        yield _rle_long_run(r, _RUN_ALPHABETS[i % len(_RUN_ALPHABETS)], rs("r", r))
+    yield _rle_long_run(129, (1, 2), rs("rf", 129), fn="mul2")
+    yield _rle_long_run(32769, ("x", "yyy"), rs("rf", 32769), fn="upper")
+    for i, m in enumerate(_B8 + (32769, 65537)):
+        yield _rle_many_runs(m, _RUN_ALPHABETS[(i + 1) % 3], rs("m", m))
+    # sparse: indices and total length around the boundary; that many stored values
+    for i, b in enumerate(_B8 + _B16):
+        yield _sparse_far(b, _ALPHABETS_SPARSE[i % 4], rs("s", b))
+    yield _sparse_far(129, (1, 2, 0), rs("sf", 129), fn="mul2")
+    yield _sparse_far(65537, ("x", "yyy", ""), rs("sf", 65537), fn="upper")
+    for n in (_B8 if tier != "quick" else (128, 129, 256, 257)):
+        yield _sparse_dense(n, "int", 0, rs("sd", n))
+    yield _sparse_dense(257, "text", "", rs("sdt"))
+    yield _sparse_dense(32769, "int", 0, rs("sD"))
+    yield _sparse_dense(65537, "int", None, rs("sDn"))
+    # constant / function columns of that length
+    vals = (3, "abc", 1.5, True, None, 2 ** 40)
+    for i, n in enumerate(_B8 + _B16):
+        if tier != "quick" or n < 1000 or i % 2 == 0:  # quick: the 16-bit sizes alternate between the two columns
+            yield {"col": "const", "value": enc(vals[i % 6]), "length": n, "fn": None}
+        if tier != "quick" or n < 1000 or i % 2 == 1:
+            yield {"col": "func", "binding": "first", "cfg": [enc(vals[(i + 1) % 6])], "length": n}
+    yield {"col": "const", "value": enc(3), "length": 129, "fn": "mul2"}
+    yield {"col": "const", "value": enc("abc"), "length": 32769, "fn": "catxy"}
+
+
+def _scale_random(rng):
+    """one seeded case of the same family: sizes drawn from the neighbourhoods of the boundaries and from between them"""
+    def size(top16=True):
+        r = rng.random()
+        if r < 0.45:
+            return rng.choice(_B8) + rng.choice([-2, -1, 0, 0, 1, 2, 5])
+        if r < 0.8 or not top16:
+            return rng.randint(100, 700)
+        if r < 0.9:
+            return rng.choice(_B16) + rng.choice([-1, 0, 1, 3])
+        return rng.randint(30000, 70000)
+    r = rng.random()
+    if r < 0.4:
+        kind = rng.choice(["int", "text", "float"])
+        k = size(top16=rng.random() < 0.15)
+        fn = rng.choice(_SCALE_FN[kind]) if rng.random() < 0.35 else None
+        if rng.random() < 0.2:
+            f = rng.choice(_SCALE_FN[kind])
+            how = "rebind" if f == "catxy" else rng.choice(["inplace", "rebind"])
+            return _dict_scale(kind, k, rng, script=rng.choice([["mat", ["fn", f, how], "mat"], [["fn", f, how], "mat", "scribble", "mat"]]))
+        return _dict_scale(kind, k, rng, fn=fn)
+    if r < 0.6:
+        ab = rng.choice(_RUN_ALPHABETS)
+        fn = {int: "mul2", float: "mul2", str: "upper"}.get(type(ab[0])) if rng.random() < 0.3 and None not in ab else None
+        if rng.random() < 0.6:
+            return _rle_long_run(size(), ab, rng, fn)
+        return _rle_many_runs(size(top16=rng.random() < 0.2), ab, rng, fn)
+    if r < 0.85:
+        if rng.random() < 0.6:
+            abd = rng.choice(_ALPHABETS_SPARSE[:4])
+            fn = {int: "mul2", str: "upper"}.get(type(abd[0])) if rng.random() < 0.3 and abd[2] is not None else None
+            return _sparse_far(size(), abd, rng, fn)
+        kind = rng.choice(["int", "text", "float"])
+        d = rng.choice([None, {"int": 0, "text": "", "float": 0.5}[kind]])
+        return _sparse_dense(min(size(top16=rng.random() < 0.1), rng.choice([300, 300, 70000])), kind, d, rng)
+    v = rng.choice([3, "abc", 1.5, True, None, -(2 ** 40), "É"])
+    if rng.random() < 0.5:
+        return {"col": "const", "value": enc(v), "length": size(), "fn": None}
+    return {"col": "func", "binding": rng.choice(["first", "last"]), "cfg": [enc(v)], "length": size()}
+
+
 def exhaustive(tier):
     top = 4 if tier == "quick" else 5
 
@@ -808,11 +1128,16 @@ def exhaustive(tier):
             for v in (3, "abc", None, 1.5, True):
                 yield {"col": "const", "value": enc(v), "length": n, "fn": None}
                 yield {"col": "func", "binding": "first", "cfg": [enc(v)], "length": n}
+        for c in _scale_fixed(tier):
+            yield c
 
     return it(), (f"all sequences of length <= {top} over {{a, b, default}} for {len(_ALPHABETS_SPARSE)} sparse, "
                   f"{len(_ALPHABETS_RLE)} run-length and {len(_ALPHABETS_DICT)} dictionary alphabets; constant/function lengths 0..{top}; "
                   f"multi-step: all sequences of length < {top} over 3 alphabets x 4 scripts (expand / function in place and by rebinding / "
-                  f"overwrite an earlier expansion / expand) on one run-length, dictionary and sparse column object, constant and function columns with a length change")
+                  f"overwrite an earlier expansion / expand) on one run-length, dictionary and sparse column object, constant and function columns with a length change; "
+                  f"boundary sweep: number of dictionary entries, run length, number of runs, sparse index / total length / number of stored values, "
+                  f"constant and function length each at 2^7, 2^8, 2^15, 2^16 and one below / above (dictionary entries: "
+                  + ("those six 8-bit sizes" if tier == "quick" else "every size 120..136, 248..264, 511..513") + " for int, text and float)")
 
 
 _INTS = [0, 1, -1, 2, 3, 7, 100, -100, 2 ** 31, -(2 ** 31) - 1, 2 ** 53 + 1, -(2 ** 53) - 1, 2 ** 62, 2 ** 63 - 1, -(2 ** 63)]
@@ -1000,11 +1325,15 @@ def generate(rng, tier):
         yield _random_case(rng)
     for _ in range(count // 3):
         yield _random_script_case(rng)
+    for _ in range(24 if tier == "quick" else 300):
+        yield _scale_random(rng)
 
 
 def search(rng):
     while True:
-        if rng.random() < 0.4:
+        if rng.random() < 0.08:
+            yield _scale_random(rng)
+        elif rng.random() < 0.4:
             yield _random_script_case(rng)
         else:
             yield _random_case(rng, weights=(0.7, 0.8, 0.9, 0.95))
@@ -1018,9 +1347,17 @@ def shrink(case):
                 yield dict(case, script=sc[:i] + sc[i + 1:])
     if "values" in case:
         vs = case["values"]
+        size = len(vs) // 2
+        while size >= 2:  # long sequences: drop halves, quarters, ... before single elements
+            for i in range(0, len(vs), size):
+                yield dict(case, values=vs[:i] + vs[i + size:])
+            size //= 2
         for i in range(len(vs)):
             yield dict(case, values=vs[:i] + vs[i + 1:])
         if case.get("fn"):
             yield dict(case, fn=None)
     elif case["length"] > 0:
+        if case["length"] > 3:
+            yield dict(case, length=case["length"] // 2)
+            yield dict(case, length=case["length"] * 9 // 10)
         yield dict(case, length=case["length"] - 1)
